@@ -222,10 +222,11 @@ theorem plan_closed_traceql (c : TraceQL.Ctx) (hc : TraceQL.CtxOK c) (script : T
   ⟨closed_fragments_partial _ hw, render_structure_invariant_sel _ hw⟩
 
 /-- … the tag-names request (`PlanTagsV2`) -/
-theorem plan_closed_traceql_tags (c : TraceQL.Ctx) (hc : TraceQL.CtxOK c) (script : TraceQL.Script) (X : Sel)
-    (h : TraceQL.planTags c script = .ok X) :
+theorem plan_closed_traceql_tags (c : TraceQL.Ctx) (hc : TraceQL.CtxOK c) (kvTable : String)
+    (hkv : rawE (b kvTable) = true) (script : TraceQL.Script) (X : Sel)
+    (h : TraceQL.planTags c kvTable script = .ok X) :
     safeSegs .normal (segsSel X) = true ∧ kinds (renderSel X) = kinds (renderSegs ((segsSel X).map Seg.shape)) :=
-  have hw := TraceQL.wf_planTags c hc script X h
+  have hw := TraceQL.wf_planTags c hc kvTable hkv script X h
   ⟨closed_fragments_partial _ hw, render_structure_invariant_sel _ hw⟩
 
 /-- … the tag-values request (`PlanValuesV2`): the requested tag `key` is ANY byte string (a leaf) -/
